@@ -65,6 +65,7 @@ def draw_smc_scenario(
     hard=False,
     cut_prob=0.25,
     offset_prob=0.0,
+    reuse_prob=0.0,
 ):
     rng = rng_from(seed)
     kind = pick(rng, list(kinds))
@@ -140,6 +141,17 @@ def draw_smc_scenario(
         if r2.uniform() < offset_prob:
             scn["target"]["c"] = float(pick(r2, [-2800.0, -900.0, 1500.0, 4000.0]))
             scn["_offset"] = True
+    if reuse_prob and scn["checkpoint"]["mode"] == "none" and sampler == "smc":
+        # ONE sampler object serves two fresh sample() calls (Aspire.init_sampler, then sample twice): whatever the first
+        # call leaves on the object must not leak into what the second one records and returns
+        r3 = rng_from((int(seed) ^ 0x2E05E) % (1 << 62))
+        if r3.uniform() < reuse_prob:
+            s1, _m1 = draw_schedule(r3, allow_cap=allow_cap)
+            s1["sampler_kwargs"] = {"n_steps": 1}
+            scn["api"] = "sampler"
+            scn["rng_route"] = "sample" if scn["rng_route"] != "none" else "none"
+            scn["first_call"] = s1
+            scn["_reused_sampler"] = True
     scn["_schedule_mode"] = mode
     scn["_precond"] = pc
     return scn
